@@ -25,7 +25,7 @@ def txt(v):
     l = unlink(v)
     return l[2].strip('"') if l else (v[1] if v else "")
 
-WHICH = {"C05": ["full", "us", "us", "ie"], "C13": ["full"], "C19": ["full"], "C14": ["us", "ie"], "C15": ["open"], "C20": ["jp"], "C07": ["full"], "C16": ["full", "us", "ie", "open", "jp"]}
+WHICH = {"C06": ["full"], "C05": ["full", "us", "us", "ie"], "C13": ["full"], "C19": ["full"], "C14": ["us", "ie"], "C15": ["open"], "C20": ["jp"], "C07": ["full"], "C16": ["full", "us", "ie", "open", "jp"]}
 def gen(rng, prop=None):
     assets = ["B1", "B2", "B3"][:rng.randint(1, 3)]; per = {}; days = []
     for a in assets:
@@ -38,6 +38,18 @@ def gen(rng, prop=None):
         if rng.random() < 0.7: td = rng.choice(bd)
         else: fd = rng.choice(bd)
     if fd and td and fd > td: fd, td = td, fd
+    if prop in ("C14", "C13", "C19") and bd and rng.random() < (0.5 if prop == "C14" else 0.25):
+        fd, td = rng.choice(bd), None      # a from-date alone, on a day where instant order and local-date order disagree: nothing may be lost
+    if prop == "C14" and rng.random() < 0.3:
+        # one sale dated D in a far-east zone followed, in instant order, by several sales still dated D-1 in a far-west zone, window
+        # "from D": the first of them is in the window although later instants are not (a search that assumes dates never go back loses it)
+        a = rng.choice(assets); rows = per[a]; D0 = datetime(2019, 6, 1, tzinfo=timezone.utc) + timedelta(days=rng.randint(1300, 1500))
+        rid = max(r[1] for r in rows) + 5
+        rows.append(["IN", rid, us(D0 - timedelta(days=400)), 0, "BUY", 0, rprice(rng), 20 * U, None, None, None])
+        rows.append(["OUT", rid + 1, us(D0 - timedelta(hours=13, minutes=30)), 14 * 3600, "SELL", 0, rprice(rng), U, 0, None, None, None])      # local D 00:30
+        for k in range(rng.randint(2, 5)):
+            rows.append(["OUT", rid + 2 + k, us(D0 - timedelta(hours=12) + timedelta(minutes=10 * k)), -12 * 3600, "SELL", 0, rprice(rng), U, 0, None, None, None])   # local D-1 00:00+
+        fd, td = D0.date(), None
     which = rng.choice(WHICH.get(prop, ["full", "full", "us", "ie", "open", "jp"]))
     if which in ("open", "jp"): fd = None
     return {"which": which, "assets": per, "sched": {"1970": rng.choice(["fifo", "lifo", "hifo", "lofo"]) if which not in ("ie", "jp") else "fifo"},
@@ -52,9 +64,9 @@ def compute_all(case):
 def build_asset(cfg, a, rows):
     i = TransactionSet(cfg, "IN", a); oo = TransactionSet(cfg, "OUT", a); x = TransactionSet(cfg, "INTRA", a); o2 = lambda v: dec(v) if v is not None else None
     for r in rows:
-        if r[0] == "IN": i.add_entry(InTransaction(cfg, ts_of(r[2], r[3]), a, *ACCTS[r[5]], r[4], dec(r[6]), dec(r[7]), fiat_fee=o2(r[8]), fiat_in_no_fee=o2(r[9]), fiat_in_with_fee=o2(r[10]), row=r[1]))
-        elif r[0] == "OUT": oo.add_entry(OutTransaction(cfg, ts_of(r[2], r[3]), a, *ACCTS[r[5]], r[4], dec(r[6]), dec(r[7]), dec(r[8]), crypto_out_with_fee=o2(r[9]), fiat_out_no_fee=o2(r[10]), fiat_fee=o2(r[11]), row=r[1]))
-        else: x.add_entry(IntraTransaction(cfg, ts_of(r[2], r[3]), a, *ACCTS[r[4]], *ACCTS[r[5]], dec(r[6]) if r[6] is not None else None, dec(r[7]), dec(r[8]), row=r[1]))
+        if r[0] == "IN": i.add_entry(InTransaction(cfg, ts_of(r[2], r[3]), a, *ACCTS[r[5]], r[4], dec(r[6]), dec(r[7]), fiat_fee=o2(r[8]), fiat_in_no_fee=o2(r[9]), fiat_in_with_fee=o2(r[10]), row=r[1], unique_id=P.uid_of(r[2])))
+        elif r[0] == "OUT": oo.add_entry(OutTransaction(cfg, ts_of(r[2], r[3]), a, *ACCTS[r[5]], r[4], dec(r[6]), dec(r[7]), dec(r[8]), crypto_out_with_fee=o2(r[9]), fiat_out_no_fee=o2(r[10]), fiat_fee=o2(r[11]), row=r[1], unique_id=P.uid_of(r[2])))
+        else: x.add_entry(IntraTransaction(cfg, ts_of(r[2], r[3]), a, *ACCTS[r[4]], *ACCTS[r[5]], dec(r[6]) if r[6] is not None else None, dec(r[7]), dec(r[8]), row=r[1], unique_id=P.uid_of(r[2])))
     return InputData(a, i, oo, x, cfg.from_date, cfg.to_date)
 P.build_asset = build_asset
 
@@ -120,7 +132,7 @@ def extract_open(path, assets):
 def extract_jp(path):
     L = []
     for name, rows in read_ods(path):
-        if not re.match(r"^B\d_\d{4}$", name): continue
+        if not re.match(r"^B[\w.\-]*_\d{4}$", name): continue
         refs = [REF.match(c[1]) for r in rows for c in r if c and c[0] == "formula" and REF.match(c[1])]; close = None
         for i, r in enumerate(rows):
             if len(r) > 8 and r[8] and r[8][0] == "formula" and re.match(r"^=E\d+\+F\d+-H\d+$", r[8][1]): close = i + 1
@@ -249,6 +261,10 @@ def oracle_c19(case, res, guard=True):
 def oracle_c13(case, res, guard=True):
     if res["status"].startswith(("gen-error", "crash")) and case["which"] in WHICH["C13"]: return f"the full report could not be generated ({res['status']}): nothing is listed"
     if res["status"] != "ok" or case["which"] != "full": return None
+    for r in res["rows"]:
+        if r[0] in ("IOIN", "IOOUT", "IOX") and r[3] is not None and r[-1] is not True:
+            src = [x for x in case["assets"][r[1]] if x[1] == r[3]]
+            return f"{r[1]} In-Out row {r[2]} (transaction {r[3]}): the timestamp cell differs from the transaction's timestamp {P.ts_of(src[0][2], src[0][3]) if src else '?'}"
     a2c = res["_a2c"]
     fdw = date.fromisoformat(case["from"]) if case["from"] else date.min; tdw = date.fromisoformat(case["to"]) if case["to"] else date.max
     for a, cd in a2c.items():
@@ -318,6 +334,15 @@ def oracle_c14(case, res, guard=True):
     got = [(r[1], r[3], r[4], r[5], r[7], r[6], r[8], r[9], r[10]) for r in res["rows"]]
     key = lambda t: json.dumps(t, default=str)
     got.sort(key=key); exp.sort(key=key)
+    if case["from"] and not case["to"]:
+        # a from-date alone needs no hypothesis: the window holds exactly the fractions of the whole computation whose own date is on or
+        # after it (nothing stops the scan early), so the expectation can come from a run without any window
+        fdw = date.fromisoformat(case["from"])
+        try: a2c_all = compute_all(dict(case, **{"from": None}))[4]
+        except Exception: a2c_all = None
+        if a2c_all is not None:
+            n_all = sum(1 for cd in a2c_all.values() for g in cd.gain_loss_set if g.taxable_event.timestamp.date() >= fdw)
+            if n_all != len(got): return f"the tax report has {len(got)} rows; the computation without a window has {n_all} fractions dated on or after {case['from']}"
     if got != exp:
         bad = [g for g in got if g not in exp][:1] + [e for e in exp if e not in got][:1]
         return f"rows of the tax report differ from the fractions routed by the property's sheet table (sheet, asset, amount, proceeds, gain, cost, long, sold, acquired): {bad}"
@@ -351,12 +376,34 @@ def oracle_c05(case, res, guard=True):
         bad = [g for g in got if g not in exp][:1] + [e for e in exp if e not in got][:1]
         return f"LONG/SHORT cells of the tax report differ from the holding periods (asset, amount, sold, acquired, long): {bad}"
     return None
+def oracle_c06(case, res, guard=True):
+    """Gain / Loss Summary of `<asset> Tax` in the real file: one line per (year, type, long/short) key of the shown detail fractions, the
+    type written as the transaction type's own name, crypto amounts adding up to those of the fractions with that key"""
+    if res["status"] != "ok" or case["which"] != "full" or case["from"]: return None
+    for a, cd in res["_a2c"].items():
+        want = {}
+        for g in cd.gain_loss_set:
+            k = (g.taxable_event.timestamp.year, g.taxable_event.transaction_type.value.lower(), bool(g.is_long_term_capital_gains()))
+            want[k] = want.get(k, F(0)) + F(g.crypto_amount)
+        got = {}
+        for r in res["rows"]:
+            if r[0] == "TY" and r[1] == a:
+                k = (r[3], r[4], r[5])
+                if k in got: return f"{a} Tax: two summary lines with the key {k}"
+                got[k] = r[7]
+        if set(got) != set(want): return f"{a} Tax: summary lines {sorted(got)} vs keys of the detail fractions {sorted(want)}"
+        for k in want:
+            if abs(got[k] - float(want[k])) > 1e-9 * max(1.0, abs(float(want[k]))): return f"{a} Tax: summary line {k} has crypto amount {got[k]}, its detail fractions add up to {float(want[k])}"
+    return None
 def fee_visible(case): return all(P.fee_fiat_visible({"rows": rows}) for rows in case["assets"].values())
 def dates_ok(case):
     """LocalDatesMonotone (finding F6) matters only where a date cut is applied"""
     return not (case["to"] or case["from"]) or all(P.local_dates_monotone({"rows": rows}) for rows in case["assets"].values())
 def oracle_c15(case, res, guard=True):
     if guard and not dates_ok(case): return None      # finding F6: the to-date cut with mixed UTC offsets
+    # hypothesis OutWithFeeConsistent (as for C07): an exchange-supplied crypto_out_with_fee that differs from amount + fee makes lots
+    # (which use it) and balances (which use amount + fee) disagree by construction of the input
+    if guard and not all(P.HYPS["OutWithFeeConsistent"]({"rows": rows}) for rows in case["assets"].values()): return None
     if res["status"].startswith(("gen-error", "crash")) and case["which"] in WHICH["C15"]: return f"the open-positions report could not be generated ({res['status']}): nothing is listed"
     if res["status"] != "ok" or case["which"] != "open": return None
     rowsOA = [r for r in res["rows"] if r[0] == "OA"]
@@ -372,6 +419,18 @@ def oracle_c15(case, res, guard=True):
             if abs(s - float(unreal)) > 1e-9 * max(1.0, float(unreal)): return f"{a}: unrealized cost {s} vs acquired − realized {float(unreal)}"
     w = sum(r[7] for r in rowsOA)
     if rowsOA and abs(w - 1) > 1e-9: return f"cost-basis weights add up to {w}"
+    # independently of rp2's own balance table: every account whose final balance, recomputed from the rows up to the to-date, is positive
+    # is listed on the Asset - Exchange sheet with that balance (however small), for every asset that is listed at all
+    tdw = date.fromisoformat(case["to"]) if case["to"] else None
+    for a, rows in case["assets"].items():
+        listed = [r for r in res["rows"] if r[0] == "OE" and r[2] == a]
+        if not listed: continue
+        acq, sent, rec = P.flows({"rows": rows}, tdw)
+        want = {k: acq[k] + rec[k] - sent[k] for k in set(acq) | set(sent) | set(rec)}
+        want = {k: v for k, v in want.items() if v > 0}
+        have = {r[4]: r[5] for r in listed}
+        if set(have) != set(want) or any(abs(have[k] * U - want[k]) > 0.5 + 1e-9 * want[k] for k in want):
+            return f"{a}: accounts listed {sorted(have.items())} vs positive final balances recomputed from the rows {sorted((k, v / U) for k, v in want.items())}"
     return None
 def oracle_c07(case, res, guard=True):
     if res["status"] != "ok" or case["which"] != "full": return None
@@ -424,7 +483,7 @@ def oracle_c16(case, res, guard=True):
     if guard and case["which"] == "jp" and not fee_visible(case): return None      # finding F13
     if res["status"].startswith(("gen-error", "crash")): return f"report generator {case['which']} ends with an internal error ({res['status']}) on a valid input"
     return None
-ORACLES = {"C05": oracle_c05, "C16": oracle_c16, "C07": oracle_c07, "C13": oracle_c13, "C14": oracle_c14, "C15": oracle_c15, "C19": oracle_c19, "C20": oracle_c20}
+ORACLES = {"C06": oracle_c06, "C05": oracle_c05, "C16": oracle_c16, "C07": oracle_c07, "C13": oracle_c13, "C14": oracle_c14, "C15": oracle_c15, "C19": oracle_c19, "C20": oracle_c20}
 
 def shrink_candidates(case):
     for a in list(case["assets"]):
